@@ -71,7 +71,7 @@ OUT_KINDS = ['p2pkh', 'p2sh', 'claim', 'update', 'support', 'support_data', 'pur
 REQUIRED_HITS = (
     ['B2.flow_object_vs_raw_checked', 'flow.exact', 'flow.dust_surplus', 'flow.change', 'B1.checked', 'B2.fields_checked', 'B2.reserialize_checked', 'B3.built_id_checked', 'B3.parsed_id_checked',
      'B3.hash_checked', 'B4.checked', 'S.B2.fields_checked', 'S.B3.id_checked', 'S.B3.sans_segwit_checked', 'B5.child_outpoints_checked', 'S.B2.raw_of_parsed_checked', 'M.raw_of_parsed_checked',
-     'M.fixture_checked', 'M.known_txid_checked', 'M.segwit_variant_checked', 'build.incremental', 'build.late_fields',
+     'M.fixture_checked', 'M.known_txid_checked', 'M.segwit_variant_checked', 'build.incremental', 'build.late_fields', 'build.parent_completed_after_child_input',
      'payload.claim_object', 'payload.support_object', 'payload.raw_bytes', 'witness.nonempty', 'witness.all_empty']
     + [f'in.{k}' for k in IN_KINDS] + [f'out.{k}' for k in OUT_KINDS] + ['out.tail.sh', 'out.tail.pkh']
     + [f'class.nin.{n}' for n in sorted(CORE_COUNT)] + [f'class.nout.{n}' for n in sorted(CORE_COUNT)]
@@ -265,6 +265,8 @@ def gen_input(rng, kind=None, chain_ok=True, **over):
         i.update(prev=prev, prev_out=pos)
         if rng.random() < 0.5:
             i['sequence'] = None        # keep Input.spend's default
+        if rng.random() < 0.4:
+            i['late_parent'] = rng.randrange(8)
     elif kind == 'timelock':
         height = rng.choice([1, 127, 128, 255, 256, 32767, 32768, 717738, 2 ** 31 - 1, rng.randrange(1, 2 ** 31)])
         pkh = rng.randbytes(20).hex()
@@ -274,6 +276,8 @@ def gen_input(rng, kind=None, chain_ok=True, **over):
         i.update(prev=prev, prev_out=pos, height=height, pkh=pkh)
         if rng.random() < 0.5:
             i['sequence'] = None
+        if rng.random() < 0.4:
+            i['late_parent'] = rng.randrange(8)
     i.update(over)
     return i
 
@@ -621,6 +625,9 @@ def lib_output(o, payload_obj):
     raise ValueError(k)
 
 
+LATE_PARENTS = [0]
+
+
 def lib_input(i, prev_built):
     from lbry.wallet.transaction import Input, TXORef
     from lbry.wallet.hash import TXRefImmutable
@@ -646,12 +653,48 @@ def lib_input(i, prev_built):
         return Input(TXORef(TXRefImmutable.from_hash(bytes.fromhex(i['hash']), -1), i['index']),
                      IS.redeem_multi_sig_script_hash([B(s) for s in i['sigs']], [B(p) for p in i['pubkeys']]), i['sequence'])
     if k in ('spend', 'timelock'):
-        prev_tx = lib_build(prev_built)
+        late = i.get('late_parent')
+        pspec = prev_built.spec
+        finish = None
+        if late is not None:
+            # the parent is still under construction when the child input is made and looked at, and is completed afterwards - what
+            # Transaction.create does with change, and spend_time_lock with version / locktime (seeded break C05-K cached the
+            # serialised outpoint in the reference, so the child kept the parent's *earlier* id).  The expectation is untouched:
+            # the reference model hashes the parent as the spec describes it, i.e. as it is at the end
+            import copy
+            pb = copy.copy(prev_built)
+            if late % 2 == 0 and i['prev_out'] < len(pspec['outputs']) - 1:
+                pb.spec = dict(pspec, outputs=pspec['outputs'][:-1])
+                pb.payloads = prev_built.payloads[:-1]
+                finish = 'output'
+            else:
+                pb.spec = dict(pspec, locktime=pspec['locktime'] ^ 1)
+                finish = 'locktime'
+            prev_tx = lib_build(pb)
+        else:
+            prev_tx = lib_build(prev_built)
         txo = prev_tx.outputs[i['prev_out']]
         if k == 'spend':
             txi = Input.spend(txo)
         else:
             txi = Input.spend_time_lock(txo, R.timelock_script(i['height'], bytes.fromhex(i['pkh'])))
+        if finish is not None:
+            from lbry.wallet.bcd_data_stream import BCDataStream
+            look = (late // 2) % 4
+            if look == 0:
+                _ = txi.txo_ref.hash
+            elif look == 1:
+                _ = txi.txo_ref.id
+            elif look == 2:
+                txi.serialize_to(BCDataStream())
+            else:
+                _ = (txi.size, txo.id, prev_tx.id)
+            if finish == 'output':
+                prev_tx.add_outputs([lib_output(pspec['outputs'][-1], prev_built.payloads[-1][0])])
+            else:
+                prev_tx.locktime = pspec['locktime']
+                prev_tx._reset()
+            LATE_PARENTS[0] += 1
         if i.get('sequence') is not None:
             txi.sequence = i['sequence']
         return txi
@@ -869,8 +912,11 @@ def run_model(rec, spec, family, known_txid=None):
 
     # ---- B1: build through the library, serialise, compare with the reference encoding
     try:
+        n_late = LATE_PARENTS[0]
         tx = lib_build(built)
         raw = tx.raw
+        if LATE_PARENTS[0] > n_late:
+            rec.hit('build.parent_completed_after_child_input', LATE_PARENTS[0] - n_late)
     except Exception as e:  # noqa: BLE001 - any exception while building a model inside the quantifier is judged
         site = lbry_site(e)
         if site.endswith('@harness'):
